@@ -108,8 +108,11 @@ def mutate(r, T, g, tree):
         return t, "children-swapped"
     if kind == "arity" and isinstance(n, T.BaseOperation):
         cs = list(n.children)
-        if cs and r.random() < 0.5:
+        x = r.random()
+        if cs and x < 0.4:
             cs.pop()
+        elif x < 0.7:
+            cs.append(T.NoneItem())      # a trailing placeholder is still one more operand
         else:
             cs.append(g.leaf())
         n.children = cs
